@@ -37,8 +37,8 @@ CLAIMED = {
     text="Exact second-order Taylor identity of the weighted squared error (so gradient and Hessian are the derivatives), value formula, "
          "fast = generic value and gradient given equal weights (squared error and relative entropy kernels), gradient of the relative "
          "entropy is the derivative (Mathlib HasDerivAt) of the defining formula away from clipping (partial: unclipped formula), and wiring "
-         "theorems over the loss objects' cached fields as explicit state records incl. proved negation witnesses for the weighting-mode "
-         "defects. Relative-entropy Hessian and value-vs-formula are oracle-checked only. 16 correspondence ops incl. configuration histories.",
+         "theorems over the loss objects' cached fields as explicit state records: every accepted weighting mode takes effect from any "
+         "earlier state, generic and fast, for any number of outcomes. Relative-entropy Hessian and value-vs-formula are oracle-checked only. 16 correspondence ops incl. configuration histories.",
     design="§4 C12, §9", technique="Lean 4 proof (algebraic Taylor identity, HasDerivAt, state records) + model/implementation correspondence"),
  "C19": dict(
     text="Covariance of the empirical distributions, MSE of the empirical distributions and of the linear estimate (variable mode and POVM "
@@ -84,7 +84,7 @@ CLAIMED = {
     text="Lean-checked for all numbers/lengths of schedules and list sizes on a model whose tables and positional specs are REGENERATED FROM THE "
          "SOURCE each run (skeleton-matching ast translator): validation accepts exactly the well-formed schedules, also after any setter history "
          "(invariant by induction over operation lists); rejections carry the right error class and position; Qst/Povmt/Qpt accept exactly their "
-         "shape (Qmpt: exact accepted language; shape clause partial, see known finding); accepted schedules ending in their only POVM execute. "
+         "shape; every rejection is the schedule-item or schedule-order error at the first malformed schedule; accepted schedules ending in their only POVM execute. "
          "Tied to the code by exhaustive comparison (81 list-size configurations, length <= 4, thorough 5; 1.4M cases quick) and an independent "
          "rule oracle with a Born-rule reference.",
     design="§4 C20, §9", technique="Lean 4 proof (decision logic stated outright, setter invariant by induction) + ast-regenerated tables + exhaustive correspondence"),
@@ -98,8 +98,8 @@ CLAIMED = {
          "differential and delta-debugged replays (not proved: Python aliasing is not modelled).",
     design="§4 C13, §9", technique="Lean 4 state machines + invariants by induction over op lists + correspondence + snapshotting history fuzzer"),
  "C15": dict(
-    text="Machine-checked (Lean 4): the seed plumbing of both simulation entry points over an abstract generator (integer seed => identical "
-         "repetitions, with its negation witness; Generator/None => consecutive stream segments; flow repetitions depend only on (seed_data, "
+    text="Machine-checked (Lean 4): the seed plumbing of both simulation entry points over an abstract generator (integer seed, Generator and "
+         "None => one stream, repetition k draws the k-th consecutive segment; the result is a pure function of an integer seed; flow repetitions depend only on (seed_data, "
          "index)), schedule- and partition-independence of the collected results for state-independent tasks (with a proved counter-example for "
          "state-dependent ones), re-estimation, the depolarising mixture identity and convexity of the physical set, and an iff-characterisation "
          "of the built-in physicality check for all estimator configurations. Tied to the real code by correspondence on synthetic results, "
@@ -147,8 +147,8 @@ CLAIMED = {
  "C18": dict(
     text="Machine-checked (Lean 4, all dimensions) for the executable model of effective_lindbladian.py: generators built from (H,K) act as the GKSL "
          "equation and are trace-annihilating / first-row-zero; the first row is the trace functional; the equality projection zeroes exactly the first "
-         "row and is the Frobenius-nearest point; extraction o rebuild returns K and the traceless part of H; J-extraction / parts-sum with the code "
-         "as it is are refuted by proved witnesses (known finding) and proved for the patched formula; first row of every exponential partial sum is "
+         "row and is the Frobenius-nearest point; extraction o rebuild returns K, J and the traceless part of H; the h/j/k parts sum to the whole; the "
+         "jump-operator builder is refuted by a proved witness (open known finding); first row of every exponential partial sum is "
          "e0. Tied to the real code by exact-rational correspondence (23 ops; 1 qubit / qutrit / 2 qubits, two basis families). CP of exp(L), the "
          "Matrix.exp limit and K-PSD <=> CP are checked per run on the implementation, not proved.",
     design="§4 C18, §9", technique="Lean 4 proof over a star-field model + exact-rational correspondence + GKSL oracle"),
